@@ -86,3 +86,42 @@ def points_for_ball(pn, center, axes):
         P[i] = axes * d * (1 + sgn * eps)
         kinds[i] = 1
     return P + np.asarray(center, dtype=float), kinds
+
+
+def points_for_polygon(pn, xy, size):
+    """n 2-D points around a polygon: 40% uniform in the 1.3x box, 30% at signed distance
+    +-10^U(-6,-1)*size from a random point of a random edge, 20% sharing x or y exactly
+    with a vertex, 10% next to a vertex."""
+    n = pn["n"]
+    u = unit(pn["nz"]).reshape(n, 6)
+    xy = np.asarray(xy, dtype=float)
+    lo, hi = xy.min(axis=0), xy.max(axis=0)
+    c, h = (lo + hi) / 2, (hi - lo) / 2
+    P = c + 1.3 * h * (2 * u[:, :2] - 1)
+    kinds = np.zeros(n, dtype=int)
+    m = len(xy)
+    for i in range(n):
+        t = u[i, 3]
+        if t < 0.4:
+            continue
+        if t < 0.7:
+            j = int(u[i, 4] * m) % m
+            a, b = xy[j], xy[(j + 1) % m]
+            q = a + u[i, 0] * (b - a)
+            e = b - a
+            nn = np.array([e[1], -e[0]]) / np.linalg.norm(e)
+            d = 10.0 ** (-6 + 5 * u[i, 2]) * size
+            sgn = 1 if (int(u[i, 5] * 1000) % 2) else -1
+            P[i] = q + sgn * d * nn
+            kinds[i] = 1
+        elif t < 0.9:
+            v = xy[int(u[i, 4] * m) % m]
+            P[i, int(u[i, 5] * 2) % 2] = v[int(u[i, 5] * 2) % 2]
+            kinds[i] = 2
+        else:
+            v = xy[int(u[i, 4] * m) % m]
+            d = 10.0 ** (-5 + 4 * u[i, 1]) * size
+            ang = 2 * np.pi * u[i, 0]
+            P[i] = v + d * np.array([np.cos(ang), np.sin(ang)])
+            kinds[i] = 3
+    return P, kinds
